@@ -1000,7 +1000,8 @@ pub fn generic_entries<C: Suite>(seed: u64, full: bool) -> Vec<Box<dyn TyDyn + S
     out.push(entry("ProofOfKnowledge", g, &x, false, poks.clone()));
     let mut pokts = vec![];
     for (n, p) in &poks {
-        for t in [0u64, 1_700_000_000_000, u64::MAX] {
+        // incl. values that are not exactly representable as a double and the 32 / 53 / 63 bit boundaries
+        for t in [0u64, 1_700_000_000_000, u64::MAX, u64::MAX - 1, (1 << 53) + 1, (1 << 62) + 12345, (1 << 63) + 1, (1 << 32) + 1, i64::MAX as u64] {
             pokts.push((format!("{} t={}", n, t), ProofOfKnowledgeTimestamp::<C> { proof: *p, timestamp: t }));
         }
     }
